@@ -19,6 +19,7 @@ import (
 	"github.com/smart-core-os/sc-golang/internal/testproto"
 	"github.com/smart-core-os/sc-golang/pkg/resource"
 	"github.com/smart-core-os/sc-golang/pkg/trait/bookingpb"
+	"github.com/smart-core-os/sc-golang/pkg/wrap"
 	"verifrt"
 	"verifrt/hx"
 )
@@ -389,6 +390,73 @@ func bookings(s *hx.Seq) {
 		if fmt.Sprint(got) != fmt.Sprint(want) {
 			s.Fail("booking-list "+name, fmt.Sprintf("ListBookings returned %v, the bookings intersecting the period are %v", got, want), nil)
 		}
+		// PullBookings with the same predicate folds to the same set: its seed, then a booking moved onto each
+		// grid period in turn (starts / stops matching, stays)
+		var pulled []string
+		res := verifrt.RunOnce(nil, false, func() {
+			client := traits.NewBookingApiClient(wrap.ServerToClient(traits.BookingApi_ServiceDesc, srv))
+			pctx, cancel := context.WithCancel(ctx)
+			defer cancel()
+			stream, err := client.PullBookings(pctx, &traits.ListBookingsRequest{Name: "n", BookingIntersects: &sctime.Period{StartTime: ts(q[0]), EndTime: ts(q[1])}})
+			if err != nil {
+				s.Fail("booking-pull-error "+name, err.Error(), nil)
+				return
+			}
+			view := map[string]bool{}
+			go func() {
+				for {
+					r, err := stream.Recv()
+					if err != nil {
+						return
+					}
+					for _, c := range r.Changes {
+						if c.NewValue == nil {
+							delete(view, c.OldValue.GetId())
+						} else {
+							view[c.NewValue.Id] = true
+						}
+					}
+				}
+			}()
+			verifrt.WaitIdle()
+			check := func(when string) bool {
+				l, err := srv.ListBookings(ctx, &traits.ListBookingsRequest{Name: "n", BookingIntersects: &sctime.Period{StartTime: ts(q[0]), EndTime: ts(q[1])}})
+				if err != nil {
+					return true
+				}
+				var lw, vw []string
+				for _, b := range l.Bookings {
+					lw = append(lw, b.Id)
+				}
+				for id := range view {
+					vw = append(vw, id)
+				}
+				sort.Strings(lw)
+				sort.Strings(vw)
+				if fmt.Sprint(lw) != fmt.Sprint(vw) {
+					s.Fail("booking-pull "+name, fmt.Sprintf("%s: folding PullBookings gives %v, ListBookings gives %v", when, vw, lw), nil)
+					return false
+				}
+				pulled = vw
+				return true
+			}
+			if !check("after the seed") {
+				return
+			}
+			for _, p := range periods {
+				if _, err := m.UpdateBooking(&traits.Booking{Id: "b00", Booked: &sctime.Period{StartTime: ts(p[0]), EndTime: ts(p[1])}}); err != nil {
+					continue
+				}
+				verifrt.WaitIdle()
+				if !check(fmt.Sprintf("after moving b00 to [%d,%d)", p[0], p[1])) {
+					return
+				}
+			}
+		})
+		if res.Status != "ok" {
+			s.Fail("booking-pull-"+res.Status+" "+name, res.Msg, nil)
+		}
+		_ = pulled
 	}
 	s.Sample("ListBookings(booking_intersects=q) over 13 bookings with periods on a grid incl. unbounded ends, for every q of the grid, against an interval oracle")
 }
